@@ -1,6 +1,6 @@
 (* Entry points of the correspondence check (checks/c05.py): all strategies of the model and the
    Spec oracle on one program, rendered as options of lists of triples. *)
-Require Import KV.Datalog.LeastModel KV.Datalog.Strategies KV.Datalog.Classes.
+Require Import KV.Datalog.LeastModel KV.Datalog.Stratified KV.Datalog.Strategies KV.Datalog.Classes.
 
 Definition nv_tbl (tbl : list (N * Z)) (c : N) : Z :=
   match find (fun e => N.eqb (fst e) c) tbl with Some e => snd e | None => 0%Z end.
@@ -23,7 +23,8 @@ Definition run_all (tbl : list (N * Z)) (fuel : nat) (P : list rule) (F : list f
    twice (par_run fuel P) F,
    twice (prov_bool_run nv fuel P) F,
    least_model nv fuel P F,
-   (known_C05_par P, known_C05_neg P, safe P)).
+   (known_C05_par P, known_C05_neg P, safe P),
+   (if known_C05_neg P then stratified_exec nv fuel P F else None, known_C05_neg_feed P, forallb check_rule_safety P)).
 
 (* function-level stream: the bucketed join on explicit rows *)
 Definition rkey (k : key) : N * N := match k with KV x => (0, x) | KS c => (1, c) | KO c => (2, c) end.
